@@ -59,6 +59,34 @@ def generate(seed, tier):
             start = [round(rng.uniform(l + 0.02 * (u - l), u - 0.02 * (u - l)), 4) for l, u in zip(lb, ub)]
             if hard and rng.random() < 0.5:
                 start = [round(l + (u - l) * rng.choice([0.03, 0.08, 0.92, 0.97]), 4) for l, u in zip(lb, ub)]
+        lb, ub, start = list(lb), list(ub), list(start)
+        if not at_truth and rng.random() < 0.3:
+            # bounds that are active at the constrained optimum: one face of the box excludes the generating value,
+            # and another parameter may be bounded below by exactly 0 where the model tolerates that
+            j = rng.randrange(len(lb))
+            tj = theta[bidx[j]]
+            if rng.random() < 0.5:
+                ub[j] = round(tj * rng.uniform(0.4, 0.8), 4)
+                lb[j] = min(lb[j], round(ub[j] * 0.3, 4))
+            else:
+                lb[j] = round(tj * rng.uniform(1.3, 2.0), 4)
+                ub[j] = max(ub[j], round(lb[j] * 2.0, 4))
+            for k_ in range(len(lb)):
+                th0 = list(theta)
+                th0[bidx[k_]] = 0.0
+                if rng.random() < 0.6 and solver.safe_reference(ref, th0, x0, t0, d["obs_t"]) is not None:
+                    lb[k_] = 0.0
+            start = [round(rng.uniform(l + 0.05 * (u - l), u - 0.05 * (u - l)), 4) for l, u in zip(lb, ub)]
+        if rng.random() < 0.25:
+            # a start (or the generating value itself) exactly on a face of the box
+            j = rng.randrange(len(lb))
+            if at_truth:
+                if rng.random() < 0.5:
+                    lb[j] = start[j]
+                else:
+                    ub[j] = start[j]
+            else:
+                start[j] = lb[j] if rng.random() < 0.5 else ub[j]
         env, batch = solver.env_for(S, tier)
         ops = [d]
         if rng.random() < 0.6:
